@@ -537,6 +537,32 @@ func exerciseNode(n ipld.Node, names []string, budget int, only ...string) []opR
 	return res
 }
 
+// rootMembers: the 1-based indices, among the case's lookup keys, of the names the root block's links carry
+func rootMembers(hc *HostileCase) []int {
+	out := []int{}
+	if hc.NonPB != "" || hc.Root == "" {
+		return out
+	}
+	var root *HBlock
+	for i := range hc.Blocks {
+		if hc.Blocks[i].ID == hc.Root {
+			root = &hc.Blocks[i]
+		}
+	}
+	if root == nil {
+		return out
+	}
+	for ki, k := range hc.Names {
+		for _, l := range root.Links {
+			if l.Name != nil && *l.Name == k {
+				out = append(out, ki+1)
+				break
+			}
+		}
+	}
+	return out
+}
+
 func runHostileCase(hc *HostileCase, tr *Tr) error {
 	fhH, fhRoot := []M{}, 0
 	var hmH []M
@@ -702,17 +728,25 @@ func runHostileCase(hc *HostileCase, tr *Tr) error {
 		}
 	}
 	tr.Emit(M{"ev": "reify", "adl": adlRec, "cls": hc.Class, "variant": hc.Open, "res": res, "kind": kind, "subSame": subSame, "reenc": reenc,
-		"H": hmH, "hroot": hmRoot, "hdigits": hmDigits, "FH": fhH, "fhroot": fhRoot,
+		"H": hmH, "hroot": hmRoot, "hdigits": hmDigits, "FH": fhH, "fhroot": fhRoot, "members": rootMembers(hc),
 		"e": res, "info": info, "isADL": subSame || reenc || res == "file" || res == "dir" || res == "hamtdir" || res == "linkmap"})
 	if out != "value" || node == nil || res == "timeout" {
 		return nil
 	}
 	// the work allowed is proportional to what the case was given: its blocks and the links they carry
-	nblocks := len(hc.Blocks) + 1
+	// and the bytes those links point at (a byte delivered is a step)
+	nblocks, nbytes := len(hc.Blocks)+1, 0
+	rawLen := map[string]int{}
+	for _, hb := range hc.Blocks {
+		rawLen[hb.ID] = len(hb.Raw)
+	}
 	for _, hb := range hc.Blocks {
 		nblocks += len(hb.Links)
+		for _, l := range hb.Links {
+			nbytes += rawLen[l.Target]
+		}
 	}
-	budget := 50*nblocks + 200
+	budget := 50*nblocks + 200 + nbytes
 	for _, r := range exerciseNode(node, hc.Names, budget, hc.Ops...) {
 		ev := M{"ev": "hop", "op": r.Op, "out": r.Out, "e": r.Out, "steps": r.Steps, "budget": budget, "info": r.Info, "key": r.Key,
 			"errs": -1, "n": -1}
